@@ -4,7 +4,7 @@
    (conn_read / conn_run: `leave`); the quit handler then removes the agent.
 *)
 From Coq Require Import ZArith NArith List Bool Arith.
-From NSG Require Import Base.Prelude Model.Defender Model.Coord Proofs.CoordBase Proofs.CoordInv Proofs.CoordInvConn Proofs.CoordInvDispatch Proofs.CoordInvHandler Proofs.CoordProps Proofs.CoordDirect Proofs.CoordInv2 Proofs.CoordAgentStep Proofs.CoordBarrier Proofs.CoordMeasure Proofs.CoordIsolation Proofs.CoordLimit Proofs.CoordKinds.
+From NSG Require Import Base.Prelude Model.Defender Model.Coord Proofs.CoordBase Proofs.CoordInv Proofs.CoordInvConn Proofs.CoordInvDispatch Proofs.CoordInvHandler Proofs.CoordProps Proofs.CoordDirect Proofs.CoordInv2 Proofs.CoordAgentStep Proofs.CoordBarrier Proofs.CoordMeasure Proofs.CoordIsolation Proofs.CoordLimit Proofs.CoordKinds Proofs.CoordFiles.
 Import ListNotations.
 
 (* every label except the two background tasks leaves the records of all agents but (at most) one exactly as they are: a departure, a fault or a bad message of one agent never touches another agent's view, counters, status, reward or trajectory *)
